@@ -85,7 +85,7 @@ claim("C02",
       "Partial: for the other 5 optimizers (Direct, Lipschitz, Bayesian, TPE, Forest), that iterate emits only after a positive check is established per run from the constraint log, not by a theorem per optimizer.",
       "Lean 4 proof (Initializer model) + differential correspondence + monitor on all optimizers", "DESIGN.md section 5, C02")
 claim("C10",
-      "GFO.C10.warm_in_init_list (a feasible warm-start dictionary, any key order, is in init_positions_l for every initialize mix), init_list_evaluated (through the real driver model a fresh optimizer evaluates its list of initial positions in order in the first n_inits steps, for any iterate/evaluate), "
+      "GFO.C10.warm_in_init_list (a feasible warm-start dictionary, any key order, is in init_positions_l for every initialize mix), init_list_evaluated (through the real driver model a fresh optimizer evaluates its list of initial positions in order in the first n_inits steps, for any iterate/evaluate; instantiated for the eleven completely modelled single-tracker optimizers in GFO.InitRuns.C10_*_init_list_evaluated), "
       "deal_order (split deals round-robin: trial t of a population is L[t], no member is asked for more than dealt). Function-level correspondence of Initializer and split; on real runs of all 22 optimizers every feasible in-space warm-start point is among the first n_inits rows, best_score >= objective(w), chained runs never get worse.",
       "That a population member's own Initializer keeps a dealt (feasible) position is covered by C02's initializer theorems + the monitor; best_score >= objective(w) is C05.",
       "Lean 4 proof (Initializer model; invariant through the driver carrying backend steps; round-robin dealing lemma) + differential correspondence + monitor", "DESIGN.md section 5, C10")
